@@ -1402,6 +1402,17 @@ package mcp
 // and equal the body's method; for tools/call, resources/read and prompts/get the Mcp-Name header must be present and
 // equal the name extracted from the body; for a tools/call of a tool the server knows, the parameter headers are
 // checked against that very tool. Older versions are exempt. The client sets exactly these headers from the body.
+// ClientSession.CallTool (client side of the parameter-header agreement): the parameter headers of a call can only be
+// produced when the request is built with the tool (its input schema with the x-mcp-header annotations) in hand. The
+// client takes the tool from its own tools/list cache and from nowhere else: when the cache does not hold it, the call
+// goes out without the tool, hence without Mcp-Param-* headers, and the SDK server rejects it (known finding F13).
+//@ func (*ClientSession).CallTool [C12]
+//@   track lookupTool as known
+//@   track context.WithValue as attach when typeIs($1, toolContextKeyType)
+//@   requires cs != nil
+//@   modifies *
+//@   ensures @a-tool-the-client-knows-is-attached-to-the-request calls(known) == 1 && (callResult(known, 1, 0) != nil ==> calls(attach) == 1 && callArg(attach, 1, 2) == iface(callResult(known, 1, 0)))
+//@   ensures @every-call-is-built-with-its-tool-in-hand calls(attach) == 1
 // The streamable client's POST: every HTTP request it sends for a message - the first attempt and the retry after a
 // successful authorization alike - has had the standard headers derived from that very message (Mcp-Method,
 // Mcp-Name, Mcp-Param-*) put on the header of that very request, after the protocol-version header was set.
